@@ -561,6 +561,12 @@ class ReactiveServer:
     """Answers request k (complete head seen) with script[k]: the response bytes in
     segments, then optionally closes.  Response k+1 is sent only after request k+1 arrived."""
 
+    def on_close(self, conn):
+        # what a real transport does when the local side closes (connection_lost -> the
+        # StreamReaderProtocol feeds EOF): a read pending on this connection returns b''
+        if not conn.server_closed and not conn.reader._eof:
+            conn.reader.feed_eof()
+
     def __init__(self, shared):
         self.shared = shared
         self.buf = b''
@@ -998,4 +1004,85 @@ def real_overlap(case, recorder_params):
         out['requests'] = [(c, p) for c, p, _ in shared['requests']]
         out['closed_under_reader'] = shared.get('closed_under_reader', 0)
         return out
+    return arun(go())
+
+
+# ------------------------------------------------------------------ one Connection object, read timeout, reconnects
+def real_timeout_sequence(exchanges, timeout):
+    """All exchanges run on ONE `Connection(timeout=...)` object through one `Stream`, with
+    `Stream.reconnect()` before each request as `Session.start` does.  An exchange whose response
+    stops mid-message (peer keeps the connection open) must end in NetworkTimedOut - the close
+    timer works on the loop clock, so real time is let pass - and later exchanges on the
+    reconnected object must be unaffected.  Returns one Exchange per exchange."""
+    from wpull.network.connection import Connection
+    from wpull.protocol.http.stream import Stream
+    from wpull.protocol.http.request import Request
+
+    async def go():
+        net = fakenet.FakeNet()
+        shared = {'net': net, 'script': [(e['segs'], e['eof']) for e in exchanges], 'requests': [], 'feeders': [],
+                  'paths': {e['path']: k for k, e in enumerate(exchanges)}}
+        net.listen('10.0.0.1', 80, lambda: ReactiveServer(shared))
+        results = []
+        with net:
+            conn = Connection(('10.0.0.1', 80), 'h', timeout=timeout)
+            calls = []
+            orig_read, orig_readline = conn.read, conn.readline
+
+            def read(amount=-1):
+                data = yield from orig_read(amount)
+                calls.append(('r', amount, bytes(data)))
+                return data
+
+            def readline():
+                data = yield from orig_readline()
+                calls.append(('l', 0, bytes(data)))
+                return data
+            conn.read = asyncio.coroutine(read)
+            conn.readline = asyncio.coroutine(readline)
+            stream = Stream(conn)
+            for k, e in enumerate(exchanges):
+                request = Request('http://h' + e['path'], method=e.get('method', 'GET'), version=e.get('version', 'HTTP/1.1'))
+                out = io.BytesIO()
+                del calls[:]
+                x = Exchange()
+                x.status = x.fields = x.body = x.exc = None
+                x.notified, x.declog, x.consumed, x.closed = [], [], 0, False
+
+                async def one():
+                    await compat._ensure(stream.reconnect())
+                    await compat._ensure(stream.write_request(request))
+                    response = await compat._ensure(stream.read_response())
+                    await compat._ensure(stream.read_body(request, response, file=out))
+                    return response
+                task = asyncio.ensure_future(one())
+                done = await fakenet.settle(task, shared['feeders'], extra=60)
+                waited = 0
+                while not done and waited < 8:
+                    await asyncio.sleep(timeout)        # real time: CloseTimer uses loop.call_later / loop.time
+                    waited += 1
+                    done = await fakenet.settle(task, shared['feeders'], extra=30)
+                if not done:
+                    task.cancel()
+                    try:
+                        await task
+                    except BaseException:
+                        pass
+                    x.outcome = 'stalled'
+                else:
+                    try:
+                        response = task.result()
+                        x.outcome = 'ok'
+                        x.status = (response.version, response.status_code, response.reason)
+                        x.fields = [(n, v) for n, v in response.fields.get_all()]
+                        x.body = out.getvalue()
+                    except Exception as exc:
+                        x.outcome = 'exc'
+                        x.exc = classify_exc(exc)
+                x.calls = list(calls)
+                results.append(x)
+                if x.outcome == 'stalled':
+                    break
+            conn.close()
+        return results, len(net.conns)
     return arun(go())
